@@ -459,3 +459,82 @@ Example connection_window_bounded_and_open_nonvacuous :
   cr_consumed s = 159600 /\ cr_granted s = 65535 + 131936 /\ cr_acc s = 27664.
 Proof. vm_compute. repeat split; reflexivity. Qed.
 
+(** 16. Every DATA byte counts, whatever became of its stream.  Over any
+    sequence of DATA frames for known streams, DATA frames for streams that
+    are gone (refused, reset, timed out) and enlargement points: the wire bytes
+    received are all either credited back on the connection window or pending
+    in the accumulator (which is flushed at half the window): nothing the peer
+    spent on a dead stream is lost to it.  [gone_stream_data_starves_before]:
+    without the credit on the second path (seeded change r2_m1) 64000 bytes of
+    refused streams leave a 65535-byte connection window at 1535 for good. *)
+Theorem every_data_byte_is_credited :
+  forall icw evs,
+    let s := fold_left (drecv_step true icw) evs crecv_new in
+    cr_granted s + cr_acc s = DEFAULT_INITIAL_WINDOW_SIZE + enlarged_by icw s + sumz (map drev_wire evs) /\
+    cr_consumed s = sumz (map drev_wire evs) /\
+    cr_window s = DEFAULT_INITIAL_WINDOW_SIZE + enlarged_by icw s - cr_acc s.
+Proof.
+  intros icw evs s. destruct (drecv_conservation icw evs crecv_new) as [H1 H2]. fold s in H1, H2.
+  unfold crecv_new, enlarged_by, cr_window in *. cbn [cr_granted cr_acc cr_consumed cr_enlarged] in *. repeat split; lia.
+Qed.
+
+Example gone_stream_data_starves_before :
+  let evs := [DEnlarge; DGone 16000; DGone 16000; DGone 16000; DGone 16000; DKnown 1535] in
+  cr_window (fold_left (drecv_step false 65535) evs crecv_new) = 0 /\
+  cr_acc (fold_left (drecv_step false 65535) evs crecv_new) = 1535 /\
+  cr_window (fold_left (drecv_step true 65535) evs crecv_new) = 65535 - 17535.
+Proof. vm_compute. repeat split; reflexivity. Qed.
+
+(** 17. Recycled stream slots.  Whatever happened on the earlier streams of a
+    slot (data sent, credit received, in both directions), the next stream
+    that takes the slot starts with the peer's current initial window toward
+    the client and the default toward a backend, like a fresh slot.
+    [recycled_slot_keeps_leftover_before]: without the reset (seeded change
+    r2_m3) a stream inherits what its predecessor left: 145535 after a generous
+    client (sends 120000 bytes where 65535 are allowed), 0 after a thrifty one. *)
+Theorem recycled_slot_starts_fresh :
+  forall s init hist,
+    slotw_step true (fold_left (slotw_step true) hist s) (SwCreate init) = mkslotw init DEFAULT_INITIAL_WINDOW_SIZE.
+Proof. exact slot_create_fresh. Qed.
+
+Example recycled_slot_keeps_leftover_before :
+  sw_front (fold_left (slotw_step false) [SwSent 65535; SwUpdate 200000; SwSent 54465; SwCreate 65535] (mkslotw 65535 65535)) = 145535 /\
+  sw_front (fold_left (slotw_step false) [SwSent 65535; SwUpdate 54465; SwSent 54465; SwCreate 65535] (mkslotw 65535 65535)) = 0 /\
+  sw_front (fold_left (slotw_step true) [SwSent 65535; SwUpdate 200000; SwSent 54465; SwCreate 65535] (mkslotw 65535 65535)) = 65535.
+Proof. vm_compute. repeat split; reflexivity. Qed.
+
+(** 18. Legal HPACK table-size signalling (RFC 7541 4.2).  After any non-empty
+    sequence of SETTINGS_HEADER_TABLE_SIZE values received since our last
+    header block, the next block starts with one or two size updates: the last
+    one is the final size, the first one is the smallest size of the interval
+    (a member of it, not above any other), and a second update is only sent
+    when the smallest is below the final.
+    [table_size_minimum_lost_before_fix]: with only the last size remembered,
+    0 then 4096 was signalled as [4096] alone (pristine finding, probe of the
+    second C14 review round; a decoder enforcing 4.2 answers COMPRESSION_ERROR). *)
+Theorem table_size_updates_legal :
+  forall v vs,
+    let out := tsz_emit (fold_left (tsz_step true) vs (tsz_step true None v)) in
+    let low := fold_left Z.min vs v in
+    List.last out 0 = List.last vs v /\
+    hd 0 out = low /\ In low (v :: vs) /\ Forall (fun x => low <= x) (v :: vs) /\
+    (length out = 2%nat <-> low < List.last vs v) /\ (length out = 1%nat \/ length out = 2%nat).
+Proof.
+  intros v vs out low. unfold out. cbn [tsz_step]. rewrite tsz_fold. fold low. unfold tsz_emit.
+  destruct (fold_min_le vs v) as [Hle Hall]. destruct (fold_min_in vs v) as [Hin|Hin]; fold low in Hle, Hall, Hin.
+  all: destruct (low <? List.last vs v) eqn:C; [apply Z.ltb_lt in C|apply Z.ltb_ge in C]; cbn [List.last hd length].
+  all: assert (Hlast : low <= List.last vs v) by
+    (destruct vs as [|x r]; [cbn [List.last]; lia|
+     pose proof (@exists_last _ (x :: r) ltac:(discriminate)) as [l' [a E]]; rewrite E in *; rewrite last_last;
+     apply Forall_app in Hall; destruct Hall as [_ Ha]; inversion Ha; assumption]).
+  all: repeat split; try lia; try (constructor; [lia|assumption]); try (left; lia); try (right; assumption);
+       try (intros; lia); try (intros; discriminate); try (left; reflexivity); try (right; reflexivity); try (rewrite Hin; left; reflexivity).
+Qed.
+
+Example table_size_minimum_lost_before_fix :
+  tsz_emit (fold_left (tsz_step false) [4096] (tsz_step false None 0)) = [4096] /\
+  tsz_emit (fold_left (tsz_step true) [4096] (tsz_step true None 0)) = [0; 4096] /\
+  tsz_emit (fold_left (tsz_step true) [100; 4096; 300] (tsz_step true None 2000)) = [100; 300] /\
+  tsz_emit (fold_left (tsz_step true) [] (tsz_step true None 256)) = [256].
+Proof. vm_compute. repeat split; reflexivity. Qed.
+
